@@ -548,4 +548,23 @@ example : (stepToks {} ["r_peek"]).2 = ["peek", "0", "-"] ∧
   have ho : Netbuf.parseOp ["r_peek"] = some .rPeek := by simp [Netbuf.parseOp]
   unfold Netbufmon.step; rw [ho, ha]; decide +kernel
 
+/- Full statement (NOT proved): for every output `o` of every run, the tokens `Driver.loopMon` cuts out of the line
+`"> " ++ <L1 part of render o> ++ "\n"` are `">" :: ans` with `Driver.Netbufmon.parseAns ans = o.ans`:
+    theorem monitor_reads_loop_line (ops : List Op) : ∀ o ∈ (runOps {} ops).2,
+      ∃ ans, loopToks (monLine o) = ">" :: ans ∧ Driver.Netbufmon.parseAns ans = o.ans
+   Missing: that the loop's cut of that line — `String.trimAscii`, the legacy `String.splitOn " "` (works on raw
+   byte positions, no lemmas in core), dropping the empty tokens — is `">"` followed by the pieces of the L1 text
+   between its spaces (`loopCutOk o`, the hypothesis `hcut` below; `KAT/NetbufAns.lean` evaluates it at every build on
+   an output of every shape and on the outputs of a run).  Everything after that cut is proved. -/
+open Percival.Model.NetbufStep Percival.Spec.NetbufMon Percival.Proofs.NetbufAns in
+theorem monitor_reads_loop_line_partial (ops : List Op) (o : Out) (ho : o ∈ (runOps {} ops).2)
+    (hcut : loopCutOk o = true) :
+    ∃ ans, loopToks (monLine o) = ">" :: ans ∧ Driver.Netbufmon.parseAns ans = o.ans :=
+  reads_loop_line o (exec_records_readable ops o ho) (exec_shown_canonical {} ops o ho) hcut
+
+open Percival.Model.NetbufStep Percival.Spec.NetbufMon Percival.Proofs.NetbufAns in
+/- the line in question for a real output -/
+example : (runOps {} [.netDeliver [1, 2, 3], .rWait 2, .spin]).2.map monLine =
+    ["> ok\n", "> ok\n", "> spin r=0:3:0102 f=0 peer=0:- sa=0\n"] := by decide +kernel
+
 end Percival.C07
